@@ -49,10 +49,19 @@ type verifC02Env struct {
 
 // verifOpenPlain opens /dir/file.bin (a plain file of symbolic size and content "file") over the wire.
 func verifOpenPlain(maxSize int, shortReads int, connShort int) *verifC02Env {
+	return verifOpenPlainRange(0, int64(maxSize), shortReads, connShort)
+}
+
+func verifOpenPlainRange(minSize, maxSize int64, shortReads int, connShort int) *verifC02Env {
 	e := &verifC02Env{led: &verifstub.Ledger{}}
 	e.size = verifrt.Int64("size")
-	verifrt.Assume(e.size >= 0)
-	verifrt.Assume(e.size <= int64(maxSize))
+	verifrt.Assume(e.size >= minSize)
+	verifrt.Assume(e.size <= maxSize)
+	if maxSize >= 0xF70 {
+		// a plain file: no 3k3y watermark at 0xF70 (masked views are the subject of C11)
+		w := verifrt.ByteAt("file", 0xF70)
+		verifrt.Assume(w != 0x44 && w != 0x45)
+	}
 	mtime := verifrt.Int64("mtime")
 	file := &verifstub.File{Label: "file", Size: e.size, MTime: mtime, ShortBudget: shortReads}
 	base := &verifstub.Fs{L: e.led, Entries: []*verifstub.Entry{{Path: "/dir/file.bin", File: file}}}
@@ -74,7 +83,20 @@ func verifOpenPlain(maxSize int, shortReads int, connShort int) *verifC02Env {
 }
 
 func VerifC02_Read() {
-	e := verifOpenPlain(verifrt.Bound("C02.maxsize", 10, 20), 1, 0)
+	verifC02Read(verifOpenPlain(verifrt.Bound("C02.maxsize", 10, 20), 1, 0))
+}
+
+// The same for files of any size above the CD-detection window (1 GiB .. 2^62 bytes): offsets and
+// remaining lengths that do not fit 32 bits.
+func VerifC02_ReadLarge() {
+	verifC02Read(verifOpenPlainRange(1<<30, 1<<62, 1, 0))
+}
+
+func VerifC02_ReadCriticalLarge() {
+	verifC02ReadCritical(verifOpenPlainRange(1<<30, 1<<62, 1, 0))
+}
+
+func verifC02Read(e *verifC02Env) {
 	limit := verifrt.Uint32("limit")
 	verifrt.Assume(limit <= uint32(verifrt.Bound("C02.maxlimit", 8, 16)))
 	off := verifrt.Uint64("off")
@@ -106,7 +128,10 @@ func VerifC02_Read() {
 }
 
 func VerifC02_ReadCritical() {
-	e := verifOpenPlain(verifrt.Bound("C02.maxsize", 10, 20), 1, 0)
+	verifC02ReadCritical(verifOpenPlain(verifrt.Bound("C02.maxsize", 10, 20), 1, 0))
+}
+
+func verifC02ReadCritical(e *verifC02Env) {
 	limit := verifrt.Uint32("limit")
 	verifrt.Assume(limit <= uint32(verifrt.Bound("C02.maxlimit", 8, 16)))
 	off := verifrt.Uint64("off")
